@@ -30,7 +30,11 @@ fn gen_vec<T: Elem>(rng: &mut Rng, n: usize, class: u64, op: Op) -> (Vec<T>, Vec
     let mut a = Vec::with_capacity(n);
     let mut b = Vec::with_capacity(n);
     // integer magnitude such that n * max|term| stays exactly representable
-    let limit: f64 = if T::BITS == 32 { 16777216.0 } else { 9007199254740992.0 };
+    let limit: f64 = if T::BITS == 32 {
+        16777216.0
+    } else {
+        9007199254740992.0
+    };
     let mut m: i64 = 64;
     let term = |m: i64| -> f64 {
         match op {
@@ -46,7 +50,10 @@ fn gen_vec<T: Elem>(rng: &mut Rng, n: usize, class: u64, op: Op) -> (Vec<T>, Vec
     for _ in 0..n {
         let (x, y): (T, T) = match class {
             // uniform exponent
-            0 => (vals::scaled_float(rng, e0 - 2, e0 + 2), vals::scaled_float(rng, e0 - 2, e0 + 2)),
+            0 => (
+                vals::scaled_float(rng, e0 - 2, e0 + 2),
+                vals::scaled_float(rng, e0 - 2, e0 + 2),
+            ),
             // wide exponent range
             1 => (vals::scaled_float(rng, lo, hi), vals::scaled_float(rng, lo, hi)),
             // same sign (no cancellation)
@@ -54,14 +61,14 @@ fn gen_vec<T: Elem>(rng: &mut Rng, n: usize, class: u64, op: Op) -> (Vec<T>, Vec
                 let x: T = vals::scaled_float(rng, -8, 8);
                 let y: T = vals::scaled_float(rng, -8, 8);
                 (T::from_f64(x.to_f64().abs()), T::from_f64(y.to_f64().abs()))
-            },
+            }
             // heavy cancellation: values near +-2^k
             3 => {
                 let s = if rng.chance(1, 2) { 1.0 } else { -1.0 };
                 let x = T::from_f64(s * (1024.0 + rng.below(64) as f64 / 64.0));
                 let y = T::from_f64(1.0 + rng.below(16) as f64 / 1024.0);
                 (x, y)
-            },
+            }
             // small integers: exact arithmetic
             4 => (vals::small_int::<T>(rng, m), vals::small_int::<T>(rng, m)),
             // sparse: mostly zeros (both signs of zero)
@@ -76,7 +83,7 @@ fn gen_vec<T: Elem>(rng: &mut Rng, n: usize, class: u64, op: Op) -> (Vec<T>, Vec
                     }
                 };
                 (z(rng), z(rng))
-            },
+            }
         };
         a.push(x);
         b.push(y);
